@@ -285,7 +285,7 @@ def binary_repr(x, n_word=None, n_frac=None, prefix=None):
     if n_frac is None:
         val = np.binary_repr(int(x), width=n_word)
     else:
-        val = insert_frac_point(np.binary_repr(x, width=n_word), n_frac=n_frac)
+        val = insert_frac_point(np.binary_repr(int(x), width=n_word), n_frac=n_frac)
 
     if prefix is not None:
         val = add_binary_prefix(val, prefix=prefix)
